@@ -13,7 +13,9 @@ def check(A):
         R.response_rules(A, fl, 'C15', parts=('one-response', 'errors'))
         R.no_block_rules(A, fl, 'C15')
         R.post_catch_all_rule(A, fl, 'C15')
+        R.disconnect_rules(A, fl, 'C15')
         S.poll_rules(A, fl, 'C15')
         S.close_once(A, fl, 'C15')
         R.admission_rules(A, fl, 'C15', parts=('sinks',))
     R.asgi_rules(A, 'C15')
+    R.driver_response_rules(A, 'C15')
